@@ -13,11 +13,12 @@ import (
 // that never returns (cycling) would hang the whole check, so the programs of a
 // case are run in a worker goroutine that publishes its progress; the case body
 // watches the CPU time of the process and, when one call has consumed
-// hangCPU seconds without returning (a normal call takes well under a
-// millisecond), reports that program as non-terminating and abandons the
+// hangCPU seconds of CPU time of this process (scaled by the number of workers
+// already abandoned, which compete for the CPU) without returning - a normal
+// call takes well under a millisecond, a 10 000-fold margin - reports that program as non-terminating and abandons the
 // worker. CPU time, not wall-clock time, so that machine load cannot trigger it.
 
-const hangCPU = 4 * time.Second
+const hangCPU = 10 * time.Second
 
 var leakedSpinners int64 // abandoned workers still spinning in this process
 
@@ -100,10 +101,17 @@ func runGuarded(t *vlib.T, work func(g *lpGuard)) bool {
 				desc = f()
 			}
 			t.NoConfirm() // a re-run would only leave more spinning goroutines behind
-			t.SubViolation(" "+desc, "lp-no-termination", nil, "lp.Simplex did not return after %v of CPU time (a normal call takes < 1 ms) [%s]", hangCPU, desc)
+			report(t, " "+desc, "lp-no-termination", nil, "lp.Simplex did not return after %v of CPU time (a normal call takes < 1 ms) [%s]", hangCPU, desc)
 			t.Count("lp_hangs", 1)
-			t.Incomplete(fmt.Sprintf("case %s abandoned after a non-terminating call", t.Key))
+			if !singleProgram(t) {
+				// the programs after the hanging one were not checked
+				t.Incomplete(fmt.Sprintf("case %s abandoned after a non-terminating call", t.Key))
+			}
 			return false
 		}
 	}
 }
+
+// singleProgram reports whether the case consists of one program only (then
+// nothing is left unchecked when its call is abandoned).
+func singleProgram(t *vlib.T) bool { return t.Group == "lp-cycling" }
